@@ -136,6 +136,8 @@ pub struct Swarm {
     pub dup_pct: usize,
     /// application ids in ascending order over the run
     pub sorted_ids: bool,
+    /// one session id for every record of the run (one process logging)
+    pub session_const: Option<u32>,
     /// percent of numeric / textual draws taken from the source dictionary (dict.rs)
     pub dict_pct: usize,
     pub seq: std::rc::Rc<SeqState>,
@@ -188,6 +190,7 @@ impl Swarm {
             time_mode: *r.pick(&[0u8, 0, 0, 1, 1, 2, 3]),
             dup_pct: *r.pick(&[0usize, 0, 0, 5, 30]),
             sorted_ids: r.chance(1, 6),
+            session_const: if r.chance(1, 3) { Some(*r.pick(&[0u32, 1, 0xffff_ffff, 4711, 0x1234_5678])) } else { None },
             dict_pct: *r.pick(&[0usize, 5, 5, 15, 40]),
             seq: {
                 let s = SeqState::default();
@@ -315,7 +318,20 @@ fn payload_bytes(r: &mut Rng, sw: &Swarm, n: usize) -> Vec<u8> {
 }
 
 fn bulk_size(r: &mut Rng, room: usize) -> usize {
-    match r.below(3) {
+    match r.below(4) {
+        3 => {
+            // a length L for which some number a of bytes, expanded k-fold by a decoder, makes
+            // k*a + (L - a) hit a 16-bit boundary (see F-AMP): L = target - (k - 1) * a
+            let k = *r.pick(&[2usize, 3, 3, 3, 4, 6]);
+            let target = *r.pick(&[65_535usize, 65_535, 65_536, 32_768]);
+            let a = 1 + r.below(target / k);
+            let l = target - (k - 1) * a;
+            if l <= room {
+                l
+            } else {
+                room
+            }
+        }
         0 => room,
         1 => (((1usize << (8 + r.below(9))) + r.below(9)).saturating_sub(4)).min(room),
         _ => r.below(room + 1),
@@ -638,7 +654,7 @@ pub fn gen_message(r: &mut Rng, sw: &Swarm) -> (Message, &'static str) {
     let kind = r.weighted(&sw.kind_w);
     let big = r.chance(sw.big_endian_pct, 100);
     let ecu_id = if r.chance(sw.opt_field_pct[0], 100) { Some(gen_id(r, sw.id_alphabet)) } else { None };
-    let session_id = if r.chance(sw.opt_field_pct[1], 100) { Some(field_u32(r, sw)) } else { None };
+    let session_id = if r.chance(sw.opt_field_pct[1], 100) { Some(sw.session_const.unwrap_or_else(|| field_u32(r, sw))) } else { None };
     let timestamp = if r.chance(sw.opt_field_pct[2], 100) {
         Some(match sw.time_mode {
             1 => {
@@ -824,6 +840,36 @@ pub fn record_of(m: &Message, kind: &'static str) -> Rec {
         }
     }
     Rec { bytes, regs, kind, foreign: false }
+}
+
+/// a verbose message whose only argument is a bulk string of an amplification-friendly length
+/// (see `bulk_size` / F-AMP)
+pub fn amp_record(r: &mut Rng, sw: &Swarm) -> Rec {
+    let (mut m, _) = gen_message(r, sw);
+    let k = *r.pick(&[2usize, 3, 3, 3, 4, 6]);
+    let target = *r.pick(&[65_535usize, 65_535, 65_536]);
+    let hdr = 4 + m.header.ecu_id.as_ref().map_or(0, |_| 4) + m.header.session_id.map_or(0, |_| 4) + m.header.timestamp.map_or(0, |_| 4) + 10;
+    let room = 65_535 - hdr - 4 - 2 - 1;
+    let lo = (target.saturating_sub(room) + k - 2) / (k - 1);
+    let a = lo.max(1) + r.below((target / k).saturating_sub(lo.max(1)) + 1);
+    let l = (target - (k - 1) * a).min(room);
+    let text: String = (0..l).map(|_| (b'a' + r.below(26) as u8) as char).collect();
+    let arg = Argument {
+        type_info: TypeInfo { kind: TypeInfoKind::StringType, coding: if r.bool() { StringCoding::UTF8 } else { StringCoding::ASCII }, has_variable_info: false, has_trace_info: false },
+        name: None,
+        unit: None,
+        fixed_point: None,
+        value: Value::StringVal(text),
+    };
+    m.header.has_extended_header = true;
+    m.header.payload_length = arg.len() as u16;
+    let (app, ctx) = match &m.extended_header {
+        Some(x) => (x.application_id.clone(), x.context_id.clone()),
+        None => ("APP".to_string(), "CTX".to_string()),
+    };
+    m.extended_header = Some(ExtendedHeader { verbose: true, argument_count: 1, message_type: MessageType::Log(LogLevel::Info), application_id: app, context_id: ctx });
+    m.payload = PayloadContent::Verbose(vec![arg]);
+    record_of(&m, "verbose")
 }
 
 pub fn gen_record(r: &mut Rng, sw: &Swarm) -> Rec {
